@@ -128,7 +128,9 @@ Variants(ts0) ==
         blank    == {Variant("blank", i, SetPre(ts, i, ts[i].pre \o "  "), <<>>) : i \in {j \in idx : ts[j].gap # "adj"}}
         tab      == {Variant("tab", i, SetPre(ts, i, ts[i].pre \o "\t"), <<>>) : i \in {j \in idx : ts[j].gap # "adj"}}
         noblank  == {Variant("noblank", i, SetPre(ts, i, ""), <<>>) : i \in {j \in 2..n : Removable(ts[j - 1], ts[j])}}
-        comment  == {Variant("comment", i, SetPre(ts, i, ts[i].pre \o " # c" \o ToString(i) \o " x"), <<" c" \o ToString(i) \o " x">>)
+        \* the text of the comment varies with the position: plain, holding a "#", empty
+        CmtText(i) == CASE i % 3 = 0 -> " c" \o ToString(i) \o " x" [] i % 3 = 1 -> " c" \o ToString(i) \o " # x#" [] OTHER -> ""
+        comment  == {Variant("comment", i, SetPre(ts, i, ts[i].pre \o " #" \o CmtText(i)), <<CmtText(i)>>)
                        : i \in {j \in idx : IsNL(ts[j])}}
         \* a comment that starts in column 1 of a continuation line is still a trailing comment
         \* (only at separator newlines: see known finding F-C09-continuation-in-linebreak)
